@@ -7,7 +7,7 @@ CONSTANTS
   CLS = {"eig", "amn", "mmn", "bkvec", "chk", "spn", "uhu", "uiu", "shu", "siu"}
   NKS = {1, 2, 3}
   NBS = {1, 2, 3}
-  NNBS = {2, 3, 4, 5, 6}
+  NNBS = {2, 3, 6}
   PATS = {1}
 INVARIANT TextRoundTrip
 INVARIANT WriterNeedsAllK
